@@ -1,7 +1,7 @@
 """C03 -- no API call sequence corrupts memory, invokes UB or leaks (the part contracts reach)."""
 import re
 import vdriver as V
-import C15, C16, C13, C10, C12, C05, C07
+import C15, C16, C13, C10, C12, C05, C07, C20, C18
 
 
 def jobs(tier):
@@ -20,12 +20,14 @@ def jobs(tier):
     take(C10, [r"spline\.bad_x", r"spline\.calc_frame", r"rfi\.window\.n5_m5", r"rfi\.search"], "interp")
     take(C05, [r"convert\..*rows3_columns3_freqs1.*_inplace$"], "vnadata")
     take(C07, [r"add_(double|complex)\.upto", r"add_integer$"], "vnacal_save")
+    take(C20, [r"add_counts\.(T8|U8|UE14|E12)_2x2_bad", r"solve_too_few\.(T8|UE14|U8)_2x2"], "vnacal_new")
+    take(C18, [r"weights\.UE14$", r"m_error_reset\.UE14$"], "vnacal_new")
     return J
 
 
 ASSUME = [
     "C03 quantifies over ALL call sequences of the whole API; what is decided here is: each listed operation is memory-safe and leak-free from ANY well-formed object (hence in every history of those operations), for the data structures under contract (vnadata, vnacal calibration/parameter tables, vnacal_new parameter hash, property lists/maps, interpolation kernels, save formatters within ordinary precisions)",
-    "NOT covered: vnacal_new_add_common and the solvers (VLA-heavy numeric code), save/load bodies (stdio, libyaml), YAML import/export, the property descriptor parser; UB in floating-point arithmetic",
+    "covered only along concrete histories (not from arbitrary objects): vnacal_new_alloc / add_single_reflect_m / add_through_m / solve failing for too few standards / solve_init / calc_weights / vnacal_new_free; NOT covered: successful numeric solves, a/b forms, mapped matrices, save/load bodies (stdio, libyaml), YAML import/export, the property descriptor parser; UB in floating-point arithmetic",
     "see the assumptions of C15, C16, C13, C10, C05, C07 for the shared modelling steps",
 ]
 TRUSTED = ["CBMC 6.11 memory model and standard checks (bounds, pointer, overflow, memory-leak)", "stubs/*"]
